@@ -145,7 +145,9 @@ func c04(c *Ctx) {
 	c.ExpectAll("block-arith/recompute-enum", c.CallArgs(rb, p.PlainCalls("litefs.(*DB).databasePageChecksum"), 1), pat("(((p1 * 256) + phi((↺ + 1)|0)) + 1)"), 1, "recomputeBlockChksum enumerates block*256+i+1", "an off-by-one drops or double-counts a page at a 256-page boundary")
 	c.Guarded("block-arith/recompute-bound", rb, p.PlainCalls("litefs.(*DB).databasePageChecksum"), gs(GP("(phi((↺ + 1)|0) < 256)", true)), 1, "for i < 256", "")
 	c.Expect("block-arith/page-lookup", joinS(c.returnsOf("litefs.(*DB).databasePageChecksum")), pat("p0.chksums.pages[(p1 - 1)];0"), "databasePageChecksum(p) = pages[p-1] or 0 beyond the slice", "")
-	c.ExpectAll("block-arith/init-sizes", []string{joinS(c.fieldStoreVals(idf, "litefs.DB.chksums.pages")) + " | " + joinS(c.fieldStoreVals(idf, "litefs.DB.chksums.blocks"))}, pat("make([]ltx.Checksum, litefs.(*DB).PageN(p0)) | make([]ltx.Checksum, litefs.pageChksumBlock(litefs.(*DB).PageN(p0)))"), 1, "initDatabaseFile sizes the page cache by PageN()", "")
+	c.ExpectAll("block-arith/init-sizes", []string{joinS(c.fieldStoreVals(idf, "litefs.DB.chksums.pages")) + " | " + joinS(c.fieldStoreVals(idf, "litefs.DB.chksums.blocks"))}, pat("make([]ltx.Checksum, litefs.(*DB).PageN(p0)) | ")+"(nil;)?"+pat("make([]ltx.Checksum, litefs.pageChksumBlock(litefs.(*DB).PageN(p0)))"), 1, "initDatabaseFile sizes the page cache by PageN() (the block cache starts empty and is sized the same way when the header declares pages)", "")
+	c.Guarded("block-arith/init-no-assert-without-pages", idf, p.PlainCalls("litefs.pageChksumBlock"), gs(GP("(0 < litefs.(*DB).PageN(p0))", true), GP("(0 == litefs.(*DB).PageN(p0))", false)), 1,
+		"initDatabaseFile computes the block of the last page only when the header declares pages (pageChksumBlock asserts a non-zero page number)", "F57: a header with in-header page count 0, restored on page 1 by a hot journal, made Store.Open panic")
 
 	// ---- wal overlay ----
 	c.OnlyIn("wal-overlay/append", p.Writes("litefs.DB.wal.chksums[]"), []string{pat("litefs.(*DB).CommitWAL")}, 1, "wal.chksums is appended to only by CommitWAL", "")
